@@ -196,6 +196,7 @@ func cmdCheck(repo, prop, tier string) int {
 		}
 	}
 	var boundedList []map[string]interface{}
+	var knownOpen []map[string]interface{}
 	nBounded := 0
 	for _, o := range all {
 		if o.Bounded != "" {
@@ -231,8 +232,9 @@ func cmdCheck(repo, prop, tier string) int {
 			if kf := known.match(prop, o.ID); kf != nil && kf.Status == "open" {
 				if o.OutsideRegion == "discharged" || kf.Region == "" {
 					knownLines = append(knownLines, fmt.Sprintf("KNOWN-FINDING: property=%s %s %s", prop, o.ID, kf.What))
-					discharged++
-					bySolver["known-finding(outside region proved)"]++
+					// an open finding is neither an obligation discharged nor a new violation: it is listed on its own
+					knownOpen = append(knownOpen, map[string]interface{}{"obligation": o.ID, "status": o.Status, "what": kf.What})
+					bySolver["known-finding(not discharged, not counted)"]++
 					continue
 				}
 			}
@@ -303,7 +305,8 @@ func cmdCheck(repo, prop, tier string) int {
 	ev := map[string]interface{}{
 		"property_id": prop, "tier": tier, "seed": seed, "level": "proof",
 		"coverage": map[string]interface{}{
-			"obligations": len(all) + len(missing) - nBounded, "discharged": discharged,
+			"obligations": len(all) + len(missing) - nBounded - len(knownOpen), "discharged": discharged,
+			"known_findings_open": knownOpen,
 			"bounded":     boundedList,
 			"checker_cmd": fmt.Sprintf("/verif/bin/rosvc check --property %s --tier %s", prop, tier),
 			"trusted_base": []string{"rosvc VC generator (/verif/engine)", "go/ssa x/tools v0.29.0", "z3 5.1.0 (z3-new), cvc5 1.0.3, z3 4.8.12",
@@ -328,7 +331,7 @@ func cmdCheck(repo, prop, tier string) int {
 		return broken("evidence: %v", err)
 	}
 	fmt.Printf("property=%s tier=%s obligations=%d discharged=%d bounded=%d violations=%d paths=%d wall=%.1fs\n",
-		prop, tier, len(all)+len(missing)-nBounded, discharged, nBounded, violations, totalPaths, time.Since(t0).Seconds())
+		prop, tier, len(all)+len(missing)-nBounded-len(knownOpen), discharged, nBounded, violations, totalPaths, time.Since(t0).Seconds())
 	return exit
 }
 
